@@ -262,7 +262,9 @@ fn gen_case(g: &mut G<'_>, target: usize, assembly: Assembly) -> Case {
         assembly,
         seed: g.raw(),
         splits,
-        pre_rows: g.below(3) as usize,
+        // (sometimes so many small rows first that the big message's packets carry the sequence ids
+        // around 255 -> 0)
+        pre_rows: if g.chance(1, 8) { 244 + g.below(12) as usize } else { g.below(3) as usize },
         post_rows: g.below(3) as usize,
         write_accept: if g.chance(1, 3) { vec![*g.pick(&[1usize << 16, 4096, 1 << 20, 77_777])] } else { vec![] },
         bin_as_str: g.coin(),
@@ -280,7 +282,7 @@ impl Prop for C04 {
         true
     }
     fn rule(&self) -> String {
-        "cases = one logical server message of a chosen size, realised by an assembly (text row of 1-4 cells whose encoded sizes sum to the target with cell boundaries before/at/after the packet limit; binary row; ERR message; column definition with a huge name; a text row abandoned with finish_error after its first 1-2 cells were written), preceded/followed by ordinary rows and PINGs, optionally with short transport writes, after a handshake response that announces a generated max_packet_size (0, 1 KiB ... 1 GiB; the server's framing must not depend on it) and character set; 1 case in 600 is instead a text or binary row of 17-70 MB laid out against the packet boundaries (cells of 1x-3x the packet size, several per row, small cells before / between / after). One case in four is run on a transport that fails once at a generated write()/flush() call (ConnectionReset, Other, BrokenPipe, TimedOut, WouldBlock or Interrupted; with short writes, so that the failure also falls inside packets) and works again afterwards: when the failure cut a packet short, the bytes handed to the transport before and after it must be a prefix of the fault-free output (a truncated packet can only be continued where it stopped); when it fell on a packet boundary they must be whole packets. Sizes: enumerated k*(2^24-1)+d for k in {1,2}, d in a window around 0, plus random sizes (small ones by the thousands). Oracle: independent framer over the raw output (consumed exactly; every fragment but the last of a long message is 0xFFFFFF bytes, the last shorter, possibly empty), reassembled messages decoded and compared with the values written. Non-trivial = message >= 2^24-1-8 bytes.".into()
+        "cases = one logical server message of a chosen size, realised by an assembly (text row of 1-4 cells whose encoded sizes sum to the target with cell boundaries before/at/after the packet limit; binary row; ERR message; column definition with a huge name; a text row abandoned with finish_error after its first 1-2 cells were written), preceded/followed by ordinary rows (0-2, one case in eight 244-255 so that the message's packets carry the sequence ids around 255 -> 0; enumerated: exact multiples of 2^24-1 behind 246-254 rows) and PINGs, optionally with short transport writes, after a handshake response that announces a generated max_packet_size (0, 1 KiB ... 1 GiB; the server's framing must not depend on it) and character set; 1 case in 600 is instead a text or binary row of 17-70 MB laid out against the packet boundaries (cells of 1x-3x the packet size, several per row, small cells before / between / after). One case in four is run on a transport that fails once at a generated write()/flush() call (ConnectionReset, Other, BrokenPipe, TimedOut, WouldBlock or Interrupted; with short writes, so that the failure also falls inside packets) and works again afterwards: when the failure cut a packet short, the bytes handed to the transport before and after it must be a prefix of the fault-free output (a truncated packet can only be continued where it stopped); when it fell on a packet boundary they must be whole packets. Sizes: enumerated k*(2^24-1)+d for k in {1,2}, d in a window around 0, plus random sizes (small ones by the thousands). Oracle: independent framer over the raw output (consumed exactly; every fragment but the last of a long message is 0xFFFFFF bytes, the last shorter, possibly empty), reassembled messages decoded and compared with the values written. Non-trivial = message >= 2^24-1-8 bytes.".into()
     }
     fn assumptions(&self) -> Vec<String> {
         vec!["messages beyond ~4*(2^24-1) bytes are not explored".into()]
@@ -368,6 +370,26 @@ impl Prop for C04 {
                             }
                         }
                     }
+                }
+            }
+        }
+        // exact multiples of 2^24-1 whose packets carry the sequence ids 253, 254, 255, 0, 1: the
+        // empty terminating packet is owed whatever the 8-bit counter did in between
+        let ks2: &[usize] = match tier {
+            Tier::Quick => &[1],
+            Tier::Thorough => &[1, 2, 3],
+        };
+        for &k in ks2 {
+            for pre in 246..=254usize {
+                for a in [Assembly::TextRow { cells: 1 }, Assembly::BinRow { cells: 1 }] {
+                    i += 1;
+                    let data = [i.wrapping_mul(0x9E37_79B9), i << 28, i << 20, 0x8000_0000u32.wrapping_mul(i), i << 30, i << 29, i << 27, 0xffff_ffff];
+                    let mut g = G::new(&data);
+                    let mut c = gen_case(&mut g, k * U24, a);
+                    c.pre_rows = pre;
+                    c.post_rows = (pre % 2) as usize;
+                    c.seed = c.seed - c.seed % 3 + (pre as u32) % 2;
+                    v.push(c);
                 }
             }
         }
